@@ -844,3 +844,145 @@ theorem apply_pairEnd (o : Op) (prev : Option Tok) (out : List Expr) (h : has o.
     split <;> rfl
 
 end Occa.Expr
+
+namespace Occa.Expr
+open Occa.Gen
+
+theorem step_close_eq (σ : St) (o : Op) (next : Option Tok) (parent : Scope) (rest : List Scope)
+    (h1 : has o.ty T.pairStart = false) (h2 : has o.ty T.pairEnd = true) (hs : σ.stack = parent :: rest) :
+    step σ (.op o) next =
+      match closeLoop o σ.prev (σ.cur.out ++ parent.out) (σ.cur.ops ++ parent.ops) with
+      | .error x => .error x
+      | .ok (out, ops) =>
+        match attachPair σ.cur.before out ops with
+        | .error x => .error x
+        | .ok (out', ops', isCast) =>
+          .ok { cur := { parent with out := out', ops := ops' }, stack := rest, prev := some (.op o), prevCastEnd := isCast } := by
+  simp only [step, h1, h2, hs, Bool.false_eq_true, if_false, if_true]
+  rfl
+
+theorem closeLoop_at_open (o : Op) (prev : Option Tok) (out : List Expr) (n : OpNode) (ops : List OpNode)
+    (hn : has n.op.ty T.pairStart = true) (hm : (o.ty == shl1 n.op.ty) = true) :
+    closeLoop o prev out (n :: ops) =
+      match applyOperator { op := o } prev (applyTernary out) with
+      | .error x => .error x
+      | .ok out' => .ok (out', ops) := by
+  rw [closeLoop]
+  simp only [hn, if_true, hm]
+  rfl
+
+/-- the result of `closePair`: the content of the pair as one `pairNode` on the enclosing scope -/
+theorem close_core (s : Sh) (σ : St) (consumed : List Tok) (cur par : Lvl) (stk : List Lvl)
+    (hinv : Inv s σ consumed cur (par :: stk)) (o : Op) (n : OpNode) (parent : Scope)
+    (hbase : cur.base = some n) (hpar : par.Rep parent) (hparg : par.Good)
+    (h2 : has o.ty T.pairEnd = true) (hm : (o.ty == shl1 n.op.ty) = true)
+    (hq : s.pendingQ = 0) (hmode : s.needOperand = false ∨ s.content = .empty) :
+    ∃ v', closeLoop o σ.prev (σ.cur.out ++ parent.out) (σ.cur.ops ++ parent.ops) =
+            .ok (.pair o v' :: parent.out, parent.ops) ∧
+          printToks v' = scopeToks cur.pre cur.top ∧ colonLu v' = false ∧
+          (isTypeNode v' = true ↔ s.content = .oneType) := by
+  obtain ⟨hrep, hgood⟩ := hinv.levels.cur_rep
+  have hfs : cur.fs = cur.pre ++ baseFrames (some n) := by rw [Lvl.fs, hbase]
+  have hopn : has n.op.ty T.pairStart = true := hgood.frames.ok (Frame.opn n) (by rw [hfs]; simp [baseFrames])
+  have hout : σ.cur.out = scopeOut cur.pre cur.top := by rw [hrep.1, hfs, scopeOut_base]
+  have hops : σ.cur.ops = scopeOps cur.pre ++ [n] := by rw [hrep.2, hfs, scopeOps_base]
+  have hparhead : ∀ e, parent.out.head? = some e → colonLu e = false := by
+    intro e he
+    rw [hpar.1] at he
+    cases htop : par.top with
+    | some t => rw [htop] at he; simp [scopeOut] at he; subst he; exact hparg.topOk t htop
+    | none =>
+      rw [htop] at he
+      simp only [scopeOut, Option.toList, List.nil_append] at he
+      have : e ∈ par.fs.flatMap Frame.outs := List.mem_of_mem_head? he
+      simp only [List.mem_flatMap] at this
+      obtain ⟨f, hf, hef⟩ := this
+      exact hparg.frames.nocolon f hf e hef
+  have hcont := hinv.content
+  have hmd := hinv.mode
+  by_cases hne : s.needOperand = true
+  · -- an empty pair
+    have hce : s.content = .empty := by
+      rcases hmode with h | h
+      · rw [hne] at h; simp at h
+      · exact h
+    simp only [hne, if_true] at hmd
+    obtain ⟨htop, hnp, hprev⟩ := hmd
+    unfold ContentOk at hcont
+    rw [hce] at hcont
+    have hpre : cur.pre = [] := hcont.1
+    have hprevtok : isPairStartTok σ.prev = true := by
+      rw [hinv.prev]
+      by_cases hcast : s.prevCastEnd = true
+      · simp only [hcast, if_true] at hprev
+        obtain ⟨m, fs', hh, _⟩ := hprev
+        rw [hfs, hpre] at hh; simp [baseFrames] at hh
+      · simp only [hcast, Bool.false_eq_true, if_false] at hprev
+        rcases hprev with ⟨hh, _⟩ | ⟨f, fs', hh, hp⟩
+        · rw [hfs, hpre] at hh; simp [baseFrames] at hh
+        · rw [hfs, hpre] at hh; simp [baseFrames] at hh
+          rw [hp, ← hh.1]; simpa [isPairStartTok, Tok.opType, Frame.node] using hopn
+    refine ⟨.empty, ?_, by rw [hpre, htop]; simp [scopeToks, topToks, printToks], rfl, by simp [isTypeNode, hce]⟩
+    rw [hout, hops, hpre, htop]
+    simp only [scopeOut, scopeOps, Option.toList, List.flatMap_nil, List.append_nil, List.nil_append, List.map_nil]
+    show closeLoop o σ.prev parent.out (n :: parent.ops) = _
+    rw [closeLoop_at_open o σ.prev parent.out n parent.ops hopn hm, applyTernary_noop parent.out hparhead,
+      apply_pairEnd o σ.prev parent.out h2]
+    cases parent.out <;> simp [hprevtok]
+  · -- an operand is available: reduce everything above the open pair
+    have hne' : s.needOperand = false := by simpa using hne
+    simp only [hne', Bool.false_eq_true, if_false] at hmd
+    obtain ⟨hkinds, _⟩ := prevO_kinds hmd hgood
+    obtain ⟨_, hmo, _⟩ := hmd
+    have hred : ∀ f ∈ cur.pre, f.reducible = true :=
+      questCount_zero_base cur.pre n hgood.noOpn (by rw [← hfs, ← hinv.pending, hq])
+    have hpreok : FramesOk cur.pre := by have := hgood.frames; rw [hfs] at this; exact this.prefix
+    have hmo' : ModeO cur.pre cur.top := by
+      rw [hfs] at hmo
+      rcases hmo with ⟨a, b⟩ | ⟨a, m, e, fs', b⟩
+      · refine Or.inl ⟨a, fun f hf => b f ?_⟩
+        cases hp : cur.pre with
+        | nil => rw [hp] at hf; simp at hf
+        | cons x xs => rw [hp] at hf; simpa using hf
+      · cases hp : cur.pre with
+        | nil => rw [hp] at b; simp [baseFrames] at b
+        | cons x xs => rw [hp] at b; simp at b; exact Or.inr ⟨a, m, e, xs, by rw [b.1]⟩
+    obtain ⟨v, hv1, hv2, hvn, hvt, _, hv4⟩ := reduce_all σ.prev cur.pre hred hpreok cur.top hmo' hgood.topOk
+    have hnotstart : isPairStartTok σ.prev = false := by
+      rw [hinv.prev]
+      rcases hkinds with ⟨t, ht, hno⟩ | ⟨b, hb, hbe⟩ | ⟨p, hp, hpr⟩
+      · rw [ht]
+        cases t with
+        | op x => exact absurd rfl (hno x)
+        | _ => simp [isPairStartTok, Tok.opType]; exact none_facts.1
+      · rw [hb]; simp [isPairStartTok, Tok.opType, (pairEnd_facts b hbe).1]
+      · rw [hp]; simp [isPairStartTok, Tok.opType, (ru_facts p hpr).1]
+    refine ⟨v, ?_, hv1, hv2, ?_⟩
+    · rw [hout, hops]
+      have := hv4 o parent.out (n :: parent.ops)
+      simp only [List.append_assoc, List.singleton_append] at this ⊢
+      rw [this, closeLoop_at_open o σ.prev (v :: parent.out) n parent.ops hopn hm,
+        applyTernary_noop (v :: parent.out) (fun e he => by simp at he; subst he; exact hv2),
+        apply_pairEnd o σ.prev (v :: parent.out) h2]
+      simp [hnotstart]
+    · unfold ContentOk at hcont
+      cases hc : s.content with
+      | empty =>
+        rw [hc] at hcont
+        have := hvn hcont.1; rw [hcont.2] at this; simp at this
+      | oneType =>
+        rw [hc] at hcont
+        obtain ⟨hp, m, k, hk⟩ := hcont
+        have := hvn hp; rw [hk] at this; simp at this; subst this
+        simp [isTypeNode]
+      | other =>
+        rw [hc] at hcont
+        simp only [reduceCtorEq, iff_false, Bool.not_eq_true]
+        by_cases hp : cur.pre = []
+        · have hvtop := hvn hp
+          cases hv : v with
+          | vtype m k => exact absurd ⟨hp, Or.inr ⟨m, k, by rw [hvtop, hv]⟩⟩ hcont
+          | _ => rfl
+        · exact hvt hp
+
+end Occa.Expr
